@@ -185,6 +185,27 @@ def _shard(args):
     return out
 
 
+def _replays(args):
+    """Known-finding reproducers (-> KNOWN-FINDING lines) and regression inputs (-> collector)."""
+    pid, open_sigs = args
+    prop = load_prop(pid)
+    lines = []
+    for f in findings_mod.load(pid):
+        if findings_mod.reproduces(prop, f):
+            lines.append(f"KNOWN-FINDING: property={pid} sig={f.sig} {f.what}")
+    regress = Collector(prop, open_sigs)
+    rdir = os.path.join(VERIF, "replays", "regress")
+    for name in sorted(os.listdir(rdir)) if os.path.isdir(rdir) else []:
+        if name.startswith(pid + "-") and name.endswith(".json"):
+            with open(os.path.join(rdir, name)) as fh:
+                payload = json.load(fh)
+            regress.handle(payload["case"] if isinstance(payload, dict) and "case" in payload else payload)
+    reg = regress.export()
+    reg["shard_seed"] = -1
+    reg["wall"] = 0
+    return lines, reg
+
+
 def merge(parts):
     m = {"evaluations": 0, "nontrivial": set(), "labels": collections.Counter(),
          "known_hits": collections.Counter(), "excluded": collections.Counter(), "buckets": {},
@@ -256,6 +277,7 @@ def write_evidence(prop, pid, tier, seed, merged, wall, violations, extra=None):
         "oracle_checks": merged["checks"],
         "shard_seeds": merged["shard_seeds"],
         "unknown_buckets": {k: v["count"] for k, v in sorted(merged["buckets"].items())},
+        "regression_replays": merged.get("regression_replays", 0),
     }
     if extra:
         cov.update(extra)
@@ -309,22 +331,20 @@ def run(pid, tier, seed, jobs):
     open_sigs = {f.sig for f in fnd}
     rc = 0
 
-    # 1. replay of known findings (pinned reproducers)
-    for f in fnd:
-        still = findings_mod.reproduces(prop, f)
-        if still:
-            print(f"KNOWN-FINDING: property={pid} sig={f.sig} {f.what}")
-
-    # 2. collect
+    # 1. replay of known findings and regression inputs, 2. collect -- all inside forked workers:
+    # the parent must not run polars before forking (its thread pool does not survive fork()).
     ctx = mp.get_context("fork")
     nshards = max(1, jobs)
     args = [(pid, tier, seed, i, nshards, open_sigs) for i in range(nshards)]
-    if nshards == 1:
-        parts = [_shard(args[0])]
-    else:
-        with ctx.Pool(nshards) as pool:
-            parts = pool.map(_shard, args, chunksize=1)
-    merged = merge(parts)
+    with ctx.Pool(nshards) as pool:
+        pre = pool.apply_async(_replays, ((pid, open_sigs),))
+        parts = pool.map(_shard, args, chunksize=1)
+        known_lines, reg = pre.get()
+    for line in known_lines:
+        print(line)
+    merged = merge(parts + [reg])
+    merged["shard_seeds"] = [x for x in merged["shard_seeds"] if x >= 0]
+    merged["regression_replays"] = reg["evaluations"]
 
     if merged["n_harness_errors"]:
         print(f"HARNESS-ERROR property={pid} count={merged['n_harness_errors']}", file=sys.stderr)
